@@ -263,12 +263,12 @@ type RunOpts struct {
 	OnSutPanic func(w *World, g *verifsim.G, msg string) bool
 	// FSWriteFault decides the fate of every file write of dtail code (nil: none fail)
 	FSWriteFault func(w *World, g *verifsim.G, path string, n int) (int, error)
-	MaxSteps   int
-	MaxFake    time.Duration
-	Net        *verifsimnet.Profile
-	Stalls     []*verifsim.StallRule
-	OnStep     func(w *World, site string) string
-	OnPark     func(w *World, g *verifsim.G)
+	MaxSteps     int
+	MaxFake      time.Duration
+	Net          *verifsimnet.Profile
+	Stalls       []*verifsim.StallRule
+	OnStep       func(w *World, site string) string
+	OnPark       func(w *World, g *verifsim.G)
 }
 
 // Outcome is what the simulator observed (independent of any oracle).
